@@ -196,6 +196,39 @@ def gpfCorrect (gauss : Script → β → β → R β) (sample : β → β) (lik
   | none => ⟨pred, l.script, g.log ++ l.log⟩
   | some v => ⟨weigh pred c v, l.script, g.log ++ l.log⟩
 
+/-! ### In-place calls `correct(b, b)`
+
+The signatures take the predicted belief by const reference and the corrected one by reference, so
+the same object may be passed for both.  Then every restore `corr = pred` is a self-assignment and
+an early return yields whatever the object holds at that point.  KF / UKF / SUKF write into the
+output only after their last validity test, and the bootstrap correction only copies before it, so
+for them the object still holds the predicted belief: their in-place behaviour is the ordinary
+function with `cin := pred`.  `GPFCorrection::correctStep` writes the wrapped correction's result
+and the redrawn positions into the object *before* asking the likelihood; since fix 5d39dcb it
+detects `&pred_particles == &corr_particles` and works on a copy of the predicted set. -/
+
+/-- In-place `KFCorrection` / `UKFCorrection` / `SUKFCorrection::correctStep(b, b)`. -/
+def gaussInPlace (gauss : Script → β → β → R β) (s : Script) (b : β) : R β := gauss s b b
+
+/-- In-place `GPFCorrection::correctStep(b, b)` as it is now (5d39dcb):
+    `const ParticleSet pred_copy = pred_particles; correctStep(pred_copy, corr_particles);` —
+    the ordinary step with the copy as predicted set and the object (still holding `b`) as output. -/
+def gpfCorrectInPlace (gauss : Script → β → β → R β) (sample : β → β) (lik : Script → R (Option γ))
+    (weigh : β → β → γ → β) (s : Script) (b : β) : R β :=
+  gpfCorrect gauss sample lik weigh s b b
+
+/-- What the in-place call did *before* 5d39dcb (kept to state what the fix repairs): the wrapped
+    correction runs in place, the positions are overwritten, and on an invalid likelihood
+    `corr_particles = pred_particles` is a self-assignment that restores nothing. -/
+def gpfCorrectInPlaceUnguarded (gauss : Script → β → β → R β) (sample : β → β) (lik : Script → R (Option γ))
+    (weigh : β → β → γ → β) (s : Script) (b : β) : R β :=
+  let g := gauss s b b
+  let c := sample g.val
+  let l := lik g.script
+  match l.val with
+  | none => ⟨c, l.script, g.log ++ l.log⟩
+  | some v => ⟨weigh c c v, l.script, g.log ++ l.log⟩
+
 /-- The correction phase of `SIS::filtering_step`:
     `if (correction().freeze_measurements()) { correct; normalise } else cor = pred`. -/
 def sisCorrectPhase (correct : Script → β → β → R β) (normalise : β → β) (s : Script) (pred cin : β) : R β :=
